@@ -44,6 +44,7 @@ def _core_prop(pid, title, fields, technique, level_text, level_note, rule=None,
 CORE_NOTE = ("Trusted: Lean kernel; content addressing (an append is given a fresh hash: distinct entries have distinct CIDs — SHA-256 collision freedom); "
              "Go's sort.SliceStable being a correct stable sort beyond 20 elements (insertion sort is modelled exactly; under a strict total order the result is unique, proved); "
              "the hand-written model of log.go/entry_map.go/utils.go/sorting.go, validated on every run by replaying PRNG histories of the real library on the model and comparing entries, heads, values, snapshots, appended entries, iterator output after every operation; "
+             "additionally the algorithmic core of log.go/utils.go is TRANSLATED from the Go source to Lean on every run (harness/cmd/extract/translate2.go -> lean/Generated/Gen*.lean) and proved equal to the model (lean/Props/Gen*.lean): traverse, FindHeads, difference, the tail of Join, Iterator/sortedHeads, the plan of Append with getEveryPow2, maxClockTimeForEntries — the translators' conventions (DESIGN.md section 10) are trusted; "
              "harness, driver, check script.")
 
 _core_prop("C01", "Replicas that merged the same entries converge (join is a CRDT merge)",
@@ -140,6 +141,7 @@ _core_prop("C06", "Merge admits only verified, authorised entries and is all-or-
     CORE_NOTE + " The validity predicate is fed from the harness's knowledge of which entry objects it tampered with and which writers each controller denies; secp256k1 verification itself is trusted.")
 
 FETCH_NOTE = ("Trusted: Lean kernel; the fetcher is modelled as a nondeterministic transition system that over-approximates the heap priority and the semaphore (every real schedule is a model trace); "
+              "the fetcher's updateClock and addNextEntry and the loaders' trimming helpers are translated from the Go source on every run and proved equal to the model (Props/GenFetcher, Props/GenLoaders); "
               "block decoding, the Go scheduler, sync.Cond/semaphore and wall-clock timeouts are runtime behaviour: the logic is proved, the runtime is exercised (trace validation with controlled completion order, watchdog, elapsed time against the timeout); content addressing; harness, driver.")
 FETCH_STREAM = dict(name="fetch", quick=["-n", "150"], thorough=["-n", "1500", "-thorough"], shards_quick=4, shards_thorough=14)
 FETCH_RULE = ("fetch stream: random forked/merged stored logs (2-4 writers, pointer counts 1-16) x 5-8 operations each (FetchAll from heads/random entries/unknown cids, the four loaders) with length in {-1, 0..size+3}, concurrency {1,2,4,32}, fault sets (absent/error/corrupt/slow), exclusion predicates, PRNG-controlled completion order (gated Gets) or stalls with timeouts; "
